@@ -1959,6 +1959,66 @@ def desugar_update_generators(index):
     return done
 
 
+# ---- zip of a sequence with a list mapped from it -----------------------------------------------------------------------------------
+def unzip_mapped_lists(index):
+    """`L = [E(x) for x in S]` (one generator, no filter; bound once) and later `for a, x in zip(L, S):` (or `zip(S, L)`) with S spelled
+    the same and not rebound in between: element k of L is E of element k of S, so the loop is `for x in S: a = E(x)`."""
+    import copy
+    done = {}
+    for f in index.all_functions():
+        binds = {}
+        for n in _own_walk(f.node):
+            if isinstance(n, ast.Assign) and len(n.targets) == 1 and isinstance(n.targets[0], ast.Name):
+                binds.setdefault(n.targets[0].id, []).append(n.value)
+        k = 0
+        for loop in [n for n in ast.walk(f.node) if isinstance(n, ast.For)]:
+            it = loop.iter
+            if not (isinstance(it, ast.Call) and isinstance(it.func, ast.Name) and it.func.id == "zip" and len(it.args) == 2 and not it.keywords and
+                    isinstance(loop.target, ast.Tuple) and len(loop.target.elts) == 2):
+                continue
+            for li, si in ((0, 1), (1, 0)):
+                L, S = it.args[li], it.args[si]
+                if not (isinstance(L, ast.Name) and len(binds.get(L.id, ())) == 1 and isinstance(binds[L.id][0], ast.ListComp)):
+                    continue
+                comp = binds[L.id][0]
+                if len(comp.generators) != 1 or comp.generators[0].ifs or ast.dump(comp.generators[0].iter) != ast.dump(S):
+                    continue
+                ct, lt = comp.generators[0].target, loop.target.elts[si]
+                # map the comprehension's target names onto the loop's, position by position
+                mp, ok = {}, True
+
+                def pair(a, b):
+                    nonlocal ok
+                    if isinstance(a, ast.Name):
+                        if a.id != "_":
+                            if isinstance(b, ast.Name) and b.id != "_":
+                                mp[a.id] = ast.Name(id=b.id, ctx=ast.Load())
+                            else:
+                                ok = False
+                    elif isinstance(a, (ast.Tuple, ast.List)) and isinstance(b, (ast.Tuple, ast.List)) and len(a.elts) == len(b.elts):
+                        for x, y in zip(a.elts, b.elts):
+                            pair(x, y)
+                    else:
+                        ok = False
+                pair(ct, lt)
+                used = {n.id for n in ast.walk(comp.elt) if isinstance(n, ast.Name)}
+                bound_c = {n.id for n in ast.walk(ct) if isinstance(n, ast.Name)}
+                if not ok or (used & bound_c) - set(mp):
+                    continue
+                val = _Subst(mp, {}).visit(copy.deepcopy(comp.elt))
+                first = ast.Assign(targets=[loop.target.elts[li]], value=val)
+                ast.copy_location(first, loop)
+                loop.target = lt
+                loop.iter = S
+                loop.body.insert(0, first)
+                k += 1
+                break
+        if k:
+            ast.fix_missing_locations(f.node)
+            done[f.site] = k
+    return done
+
+
 # ---- one If per value of a signal -------------------------------------------------------------------------------------------------
 def switch_for_equality_loops(index):
     """`for i in <values>: with m.If(S == i): BODY` -- the loop body is that one block, S does not depend on `i`, and the values of a
